@@ -480,9 +480,9 @@ class FakeConn:
         return t
 
 
-def start_client(loop, server, path_encoding='utf-8'):
+def start_client(loop, server, path_encoding='utf-8', version=3):
     """returns a task resolving to a real asyncssh SFTPClient talking to `server`"""
     from asyncssh.sftp import start_sftp_client
     conn = FakeConn(loop)
     return loop.create_task(start_sftp_client(conn, loop, 'strict', server.reader, server.writer,
-                                              path_encoding, 'strict', 3)), conn
+                                              path_encoding, 'strict', version)), conn
